@@ -605,6 +605,7 @@ type c16FEPCase struct {
 	InjectAt  []int // per L2 block (number = index+1): L1 info index injected in that block, or -1
 	Gaps      []int
 	RestartAt int
+	Word      int // what the L2 GER contract's map holds for an injected root: 0 timestamp, 1 the block's hash, 2 2^256-1, 3 2^63, 4 2^64, 5 one
 }
 
 func c16FEPGen(rt *rapid.T) c16FEPCase {
@@ -631,6 +632,7 @@ func c16FEPGen(rt *rapid.T) c16FEPCase {
 	if rapid.IntRange(0, 2).Draw(rt, "restart") == 0 {
 		c.RestartAt = rapid.IntRange(2, 60).Draw(rt, "restartAt")
 	}
+	c.Word = rapid.SampledFrom([]int{0, 0, 1, 1, 1, 2, 3, 4, 5}).Draw(rt, "mapWord")
 	return c
 }
 
@@ -667,8 +669,24 @@ func c16FEPRun(c c16FEPCase) (verdict, inconcl string) {
 		out := make([]byte, 32)
 		if len(call.Data) == 36 && string(call.Data[:4]) == string(c16MapSelector) {
 			if b, ok := injectedAt[common.BytesToHash(call.Data[4:])]; ok && b <= ch.LatestLocked() {
-				ts := common.BigToHash(new(big.Int).SetUint64(ch.HeaderLocked(b).Time))
-				copy(out, ts[:])
+				// both deployed manager generations exist: one keeps the block's timestamp, the other a block hash; any
+				// non-zero word means "injected"
+				var w common.Hash
+				switch c.Word {
+				case 1:
+					w = ch.HeaderLocked(b).Hash()
+				case 2:
+					w = common.BigToHash(new(big.Int).Sub(new(big.Int).Lsh(common.Big1, 256), common.Big1))
+				case 3:
+					w = common.BigToHash(new(big.Int).Lsh(common.Big1, 63))
+				case 4:
+					w = common.BigToHash(new(big.Int).Lsh(common.Big1, 64))
+				case 5:
+					w = common.BigToHash(common.Big1)
+				default:
+					w = common.BigToHash(new(big.Int).SetUint64(ch.HeaderLocked(b).Time))
+				}
+				copy(out, w[:])
 			}
 		}
 		return out, nil
